@@ -206,3 +206,14 @@ func init() {
 		mutant{Name: "callback-wrapper-built-once-per-site", Prop: "C09", File: "interp/run.go", Old: "\t\t\t// fixes #1634, if v is already a func, then don't re-wrap\n\t\t\t// because original wrapping cloned the frame but this doesn't\n\t\t\treturn v\n\t\t}\n", New: "\t\t\t// fixes #1634, if v is already a func, then don't re-wrap\n\t\t\t// because original wrapping cloned the frame but this doesn't\n\t\t\treturn v\n\t\t}\n\t\tif rcvr == nil && !isDefer {\n\t\t\tif firstFrame == nil {\n\t\t\t\tfirstFrame = f\n\t\t\t}\n\t\t\tf = firstFrame\n\t\t}\n", Also: [][3]string{{"interp/run.go", "\tvalue := genValue(n)\n\tisDefer := false\n", "\tvalue := genValue(n)\n\tvar firstFrame *frame\n\tisDefer := false\n"}}, Rule: "R09.8", Key: "genFunctionWrapper/captured:firstFrame"},
 	)
 }
+
+func init() {
+	addMutants(
+		// round-6 seeds on C11 and C12
+		mutant{Name: "statements-compiled-once-per-source-text", Prop: "C11", File: "interp/program.go", Old: "\treturn interp.CompileAST(n)\n}\n", New: "\tif p := lastProgram[src]; p != nil && inc {\n\t\treturn p, nil\n\t}\n\tp, err := interp.CompileAST(n)\n\tif err == nil && inc {\n\t\tlastProgram[src] = p\n\t}\n\treturn p, err\n}\n\nvar lastProgram = map[string]*Program{}\n", Rule: "R11.13", Key: "Interpreter.compileSrc/program-compiled-by-this-call"},
+		mutant{Name: "benign-compileSrc-through-a-local", Prop: "C11", File: "interp/program.go", Old: "\treturn interp.CompileAST(n)\n}\n", New: "\tp, err := interp.CompileAST(n)\n\tif err != nil {\n\t\treturn nil, err\n\t}\n\treturn p, nil\n}\n", Benign: true},
+		mutant{Name: "representability-skipped-for-the-default-type", Prop: "C12", File: "interp/typecheck.go", Old: "\tif err := check.representable(n, rtyp); err != nil {\n\t\treturn err\n\t}\n\tn.rval, err = check.convertConst(n.rval, rtyp)\n", New: "\tif ityp != n.typ {\n\t\tif err := check.representable(n, rtyp); err != nil {\n\t\t\treturn err\n\t\t}\n\t}\n\tn.rval, err = check.convertConst(n.rval, rtyp)\n", Rule: "R12.17", Key: "typecheck.convertUntyped/conversion#1/after-the-representability-check"},
+		mutant{Name: "duplicate-index-only-for-keyed-elements", Prop: "C12", File: "interp/typecheck.go", Old: "\t\tif visited[index] {\n\t\t\treturn n.cfgErrorf(\"duplicate index %d in array or slice literal\", index)\n\t\t}\n", New: "\t\tif c.kind == keyValueExpr {\n\t\t\tif visited[index] {\n\t\t\t\treturn n.cfgErrorf(\"duplicate index %d in array or slice literal\", index)\n\t\t\t}\n\t\t}\n", Rule: "R12.18", Key: "typecheck.arrayLitExpr/duplicate-index-test#1/for-every-element"},
+		mutant{Name: "source-package-registered-before-its-check", Prop: "C12", File: "interp/src.go", Old: "\t// Generate control flow graphs.\n\tfor _, root := range rootNodes {\n\t\tvar nodes []*node\n\t\tif nodes, err = interp.cfg(root, nil, importPath, pkgName); err != nil {\n\t\t\treturn \"\", err\n\t\t}\n\t\tinitNodes = append(initNodes, nodes...)\n\t}\n", New: "\tinterp.mutex.Lock()\n\tif s := interp.scopes[importPath]; s != nil {\n\t\tinterp.srcPkg[importPath] = s.sym\n\t}\n\tinterp.mutex.Unlock()\n\t// Generate control flow graphs.\n\tfor _, root := range rootNodes {\n\t\tvar nodes []*node\n\t\tif nodes, err = interp.cfg(root, nil, importPath, pkgName); err != nil {\n\t\t\treturn \"\", err\n\t\t}\n\t\tinitNodes = append(initNodes, nodes...)\n\t}\n", Rule: "R12.19", Key: "importSrc/registration#1/after-the-checking-passes"},
+	)
+}
